@@ -842,6 +842,28 @@ func gen(c *ex.Ctx) {
 	fmt.Fprintf(&sb, "\n/-- KittyImage.Draw: the writeTo closure of the placement, statement by statement. -/\ndef kittyWriteBody : List KStmt := [%s]\n",
 		strings.Join(kittyStmts(c, closureBody(funcBody(f, "KittyImage", "Draw"), "writeFunc"), false), ", "))
 
+	// ---- the placement id of KittyImage.Draw: `pid := uint(col)<<N | uint(row)` with `col, row := win.Origin()`
+	pidShift := "none"
+	if fd := ex.FindFunc(f, "KittyImage", "Draw"); fd != nil && fd.Body != nil {
+		origin := false
+		for _, st := range fd.Body.List {
+			as, ok := st.(*ast.AssignStmt)
+			if !ok || as.Tok != token.DEFINE {
+				continue
+			}
+			t := strings.ReplaceAll(src(c, st), " ", "")
+			if t == "col,row:=win.Origin()" {
+				origin = true
+			}
+			if origin && strings.HasPrefix(t, "pid:=uint(col)<<") && strings.HasSuffix(t, "|uint(row)") {
+				if n, err := strconv.ParseUint(strings.TrimSuffix(strings.TrimPrefix(t, "pid:=uint(col)<<"), "|uint(row)"), 0, 8); err == nil {
+					pidShift = fmt.Sprintf("some %d", n)
+				}
+			}
+		}
+	}
+	fmt.Fprintf(&sb, "\n/-- KittyImage.Draw: the placement id is `uint(col)<<N | uint(row)` of the window's origin (none: not of that form). -/\ndef kittyPidShift : Option Nat := %s\n", pidShift)
+
 	// ---- the Draw loops of the block images, structured (interpreted by Model/KittyTerm.lean: drawLoopOps)
 	fmt.Fprintf(&sb, "\n/-- the loop of HalfBlockImage.Draw. -/\ndef halfDrawLoop : DrawLoop := %s\n", drawLoop(c, ex.FindFunc(f, "HalfBlockImage", "Draw"), "hb"))
 	fmt.Fprintf(&sb, "\n/-- the loop of FullBlockImage.Draw. -/\ndef fullDrawLoop : DrawLoop := %s\n", drawLoop(c, ex.FindFunc(f, "FullBlockImage", "Draw"), "fb"))
